@@ -146,6 +146,10 @@ impl Prop for C16 {
         vec![("io:files>=50-blocks", tier.pick(150, 4000)), ("io:files>=1000-blocks", tier.pick(10, 300))]
     }
 
+    fn fuzz_targets(&self) -> Vec<(&'static str, u64)> {
+        vec![("fuzz_cursor", 40_000)]
+    }
+
     fn run(&self, case: &Case, obs: &mut Obs) -> Check {
         match case {
             Case::History { spec, ops } => {
